@@ -213,6 +213,47 @@ def _mutant(prop: str, m: M) -> dict:
         shutil.rmtree(d, ignore_errors=True)
 
 
+def _seeded_for(prop: str) -> List[Tuple[str, str, List[str]]]:
+    """(seed id, patch path, expected rules) for every kept seeded change that this property's check reports."""
+    out = []
+    sd = os.path.join(VERIF_DIR, "seeded")
+    if not os.path.isdir(sd):
+        return out
+    for name in sorted(os.listdir(sd)):
+        mp = os.path.join(sd, name, "meta.json")
+        pp = os.path.join(sd, name, "patch.diff")
+        if not (os.path.exists(mp) and os.path.exists(pp)):
+            continue
+        try:
+            meta = json.load(open(mp))
+        except Exception:
+            continue
+        fired = meta.get("checks_that_report_it", {}).get(prop)
+        if fired and fired.get("rc") == 1:
+            out.append((name, pp, fired.get("rules", [])))
+    return out
+
+
+def _seed_mutant(prop: str, seed: Tuple[str, str, List[str]]) -> dict:
+    name, pp, rules = seed
+    d = tempfile.mkdtemp(prefix="jvself-", dir="/var/tmp")
+    try:
+        _copy_pkg(d)
+        r = subprocess.run(["patch", "-p1", "-s", "-f", "-d", d, "-i", pp], capture_output=True, text=True)
+        if r.returncode != 0:
+            return {"name": f"seeded {name}", "status": "skipped", "why": "patch does not apply to the current tree"}
+        for root, _, files in os.walk(os.path.join(d, "jsonargparse")):
+            for fn in files:
+                if fn.endswith((".orig", ".rej")):
+                    os.unlink(os.path.join(root, fn))
+        rc, out = _run_check(prop, d)
+        got = _rules_reported(out)
+        ok = rc == 1 and (not rules or any(g in rules for g in got))
+        return {"name": f"seeded {name}", "status": "detected" if ok else "MISSED", "rc": rc, "rules": sorted(set(got)), "expected_rule": "/".join(rules)}
+    finally:
+        shutil.rmtree(d, ignore_errors=True)
+
+
 class _PassInserter(ast.NodeTransformer):
     def _visit_fn(self, node):
         self.generic_visit(node)
@@ -259,7 +300,7 @@ def run_for_property(prop: str, ctx_rc: int = 0) -> dict:
     base_lines = [l.split(" replay=")[0] for l in base_lines]
     jobs = int(os.environ.get("JV_JOBS", "16"))
     with ThreadPoolExecutor(max_workers=jobs) as ex:
-        mfut = [ex.submit(_mutant, prop, m) for m in muts]
+        mfut = [ex.submit(_mutant, prop, m) for m in muts] + [ex.submit(_seed_mutant, prop, s) for s in _seeded_for(prop)]
         nfut = [ex.submit(_neutral, prop, k, base_rc, base_lines) for k in ("unparse", "unparse+pass")]
         mres = [f.result() for f in mfut]
         nres = [f.result() for f in nfut]
